@@ -134,6 +134,7 @@ def client_keys(ops, spec, keydefs=None):
             for old in idxs:
                 o = dict(base_op(ops, old))
                 o.pop("abort", None)
+                o.pop("share", None)
                 o.pop("io_fault", None)
                 if "arg" in o:
                     o["arg"] = remap[o["arg"]] if o["arg"] in remap else remap[base_index(ops, o["arg"])]
